@@ -28,6 +28,16 @@ CLAIMED = {
             'population for every value of the node default.',
             'floats as reals; k<=3 (4 thorough); fixed baud/slot mix; z3 and symx trusted',
             'DESIGN.md §2 C06'),
+    'C04': ('symx',
+            'bounded symbolic execution of the real Edfa code (clamp, NF models, ASE, flat gain profile) with z3; exact dB algebra; '
+            'models replayed on the float code',
+            'Edfa.__call__ of every library type_def with symbolic set gain, VOAs, p_max, input powers/splits (k<=3 + out-of-band '
+            'channel): effective gain = min(set, p_max - Pin), G*Pin <= p_max, out = (in+h.f.B.NF)*G/VOA per share, out-of-band '
+            'channels dropped; NF(gain_flatmax)=nf_min, NF(gain_min)=nf_max, monotone, dB-for-dB below gain_min, Friis for dual stage; '
+            'estimate_nf_model on symbolic datasheets (thorough).',
+            'floats as reals; flat profile only (tilt/ripple normalisation is an approximation, outside the claim); math.isclose by '
+            'its real definition',
+            'DESIGN.md §2 C04'),
     'C14': ('symx',
             'bounded symbolic execution of the real spectrum-assignment code on bitmaps of symbolic cells with z3 (inductive step '
             'over request histories); models replayed on the real code',
